@@ -274,6 +274,15 @@ Theorem C10_dismember_aligned_update : forall v sh k s0,
 Proof. exact ks_update_dismember_aligned. Qed.
 Print Assumptions C10_dismember_aligned_update.
 
+(* the accepted domain in closed form, on the state the caller has (see ks_update_domain in
+   coq/Skin/SkinTheorems.v): it implies the hypotheses of all the statements above *)
+Theorem C10_update_domain : forall (sh : ks_shape) (k : ks_skin),
+  ks_update_domain sh k = true ->
+  exists s0, ks_sp_prepare_triparts (map ks_rot (kh_tris sh)) (kk_sp k) = Ok s0 /\
+             ks_update_accepts sh s0 (kk_dis k) = true.
+Proof. exact ks_update_domain_ok. Qed.
+Print Assumptions C10_update_domain.
+
 (* the two ways the hypothesis on [s0] is met: triParts is current ... *)
 Theorem C10_prepare_triparts_current : forall (ts : list tri) (s : ks_sp),
   vlen ts = vlen (kp_tp s) -> ks_sp_prepare_triparts ts s = Ok s.
@@ -349,6 +358,11 @@ Example C10_update_accepts_example :
   exists s0, ks_sp_prepare_triparts (map ks_rot (kh_tris sh)) (kk_sp k) = Ok s0 /\
              ks_update_accepts sh s0 (kk_dis k) = true.
 Proof. exact ks_update_accepts_example. Qed.
+
+Example C10_update_domain_example :
+  ks_update_domain (fst ks_wit_short) ks_wit_short_aligned = true /\
+  ks_update_domain (fst ks_wit_wide) (snd ks_wit_wide) = true.
+Proof. exact ks_update_domain_example. Qed.
 
 Example C10_update_splits_example :
   exists k', ks_nf_update KFO3 (fst ks_wit_short) ks_wit_short_aligned = Ok k' /\
